@@ -7,8 +7,8 @@ import importlib, os, sys, glob
 
 PAR = 16
 DEFAULT_UNWIND = 12
-HOOKS_ENABLE = "harness files are injected with go/packages Overlay and `go test -overlay -tags verif`; nothing is written into /repo by a check"
-HOOK_COMMITS = []
+HOOKS_ENABLE = "harness files are injected with go/packages Overlay and `go test -overlay -tags verif`; nothing is written into /repo by a check. The only guarded source change is internal/verifhook (Point(name) is an empty function unless built with -tags verif) plus Point calls before the synchronisation steps of mpmc.Queue, mpsc.Accumulator, track.StatusPool and worker.Membership; the engine treats them as scheduling points, native replays enforce the solver's schedule through them"
+HOOK_COMMITS = ["e34a1262b847c603bea90ba0fc32d35a94568dd9"]
 NOTES = "All claimed checks are bounded: evidence lists the bound vector of every harness run. Exit 3 = inconclusive (never reported as pass)."
 
 SPEC = {}
